@@ -103,6 +103,10 @@ def gen_world(rng, i, tier):
                                      # a path of several hundred bytes made of short components (far below PATH_MAX)
                                      "$ROOT/" + "/".join(["deep-directory-%02d-%s" % (k, "x" * 20) for k in range(rng.pick([7, 12]))]) + "/%s.conf" % base])
         nodes.append({"p": w["single_path"], "t": "f", "entries": contents(rng, fid, shape, dl[2], ml)})
+        # an absolute file needs no tool root at all; and the rest of the environment is none of show/syntax/cat's
+        # business (a home directory name longer than PATH_MAX is legal, no home directory too)
+        w["no_root"] = rng.chance(0.3)
+        w["home"] = rng.pick(["$ROOT/home", "$ROOT/home", "long", "unset", ""])
     else:
         w["single"] = False
         for layer in ("$ROOT" + w["rootsub"] + "/usr/etc", "$ROOT" + w["rootsub"] + "/etc"):
@@ -168,6 +172,10 @@ def build_plans(world):
     common = common[0] + common[1]
     rs = world.get("rootsub", "")
     env = {"ECONFTOOL_ROOT": world.get("rootpre", "") + "$ROOT" + rs, "ASAN_OPTIONS": "exitcode=77:detect_leaks=0:replace_str=0:intercept_strlen=0:intercept_strchr=0:intercept_strndup=0", "UBSAN_OPTIONS": "print_stacktrace=1:halt_on_error=1:exitcode=77", "HOME": "$ROOT/home"}
+    if world.get("no_root"):
+        env["ECONFTOOL_ROOT"] = None
+    if world.get("home", "$ROOT/home") != "$ROOT/home":
+        env["HOME"] = {"long": "/" + "h" * 5000, "unset": None, "": ""}[world["home"]]
     ops = []
     for cmd in ("show", "syntax", "cat"):
         ops.append({"op": "tool", "argv": ["$TOOL", cmd] + common + [target], "env": env, "tag": "tool_" + cmd})
